@@ -72,6 +72,7 @@ structure Schema where
   types : List TypeDef
   query : String
   mutation : Option String
+  subscription : Option String
   deriving Repr, DecidableEq, Inhabited
 
 /-- The feature set of a request. -/
@@ -218,6 +219,9 @@ def Accepted (S : Schema) : Bool :=
   S.kindOf S.query == some .object &&
   (match S.mutation with
    | none => true
+   | some m => S.kindOf m == some .object) &&
+  (match S.subscription with
+   | none => true
    | some m => S.kindOf m == some .object)
 
 /-- Domain of the property: the root operation types carry no required features (a gated root type
@@ -225,6 +229,9 @@ def Accepted (S : Schema) : Bool :=
 def RootsUngated (S : Schema) : Bool :=
   S.reqOf S.query == [] &&
   (match S.mutation with
+   | none => true
+   | some m => S.reqOf m == []) &&
+  (match S.subscription with
    | none => true
    | some m => S.reqOf m == [])
 
@@ -241,7 +248,8 @@ def eraseType (S : Schema) (F : Feats) (t : TypeDef) : TypeDef :=
 def erase (S : Schema) (F : Feats) : Schema :=
   { S with
     types := (S.types.filter (fun t => reqOk F t.req)).map (eraseType S F)
-    mutation := S.mutation.filter (S.visible F) }
+    mutation := S.mutation.filter (S.visible F)
+    subscription := S.subscription.filter (S.visible F) }
 
 /-! ## The accessors the Go code uses, each with the feature test it applies (or does not apply) -/
 
@@ -406,6 +414,7 @@ def fragApplies (S : Schema) (objT fragT : String) : Bool :=
 structure View where
   queryType : String
   mutationType : Option String
+  subscriptionType : Option String
   lookupF : String → Option Kind
   typeByName : String → Option String
   typesListing : List String
@@ -424,6 +433,7 @@ structure View where
 def view (S : Schema) (F : Feats) : View :=
   { queryType := S.query
     mutationType := S.mutation
+    subscriptionType := S.subscription
     lookupF := lookupF S F
     typeByName := typeByName S F
     typesListing := typesListing S F
